@@ -7,11 +7,16 @@ pub mod common;
 pub mod diag;
 
 pub mod c01;
+pub mod c02;
+pub mod c07;
+pub mod readhist;
 pub mod c19;
 
 pub fn run(prop: &str, ctx: &Ctx) -> Option<Report> {
     Some(match prop {
         "C01" => c01::run(ctx),
+        "C02" => c02::run(ctx),
+        "C07" => c07::run(ctx),
         _ => return None,
     })
 }
@@ -20,6 +25,8 @@ pub fn run(prop: &str, ctx: &Ctx) -> Option<Report> {
 pub fn replay(prop: &str, case: &str, rep: &mut Report) -> bool {
     match prop {
         "C01" => c01::replay(case, rep),
+        "C02" => c02::replay(case, rep),
+        "C07" => c07::replay(case, rep),
         _ => return false,
     }
     true
